@@ -572,6 +572,79 @@ def extra(ctx, uberjob):
             if d or tot != done or tot == 0:
                 ctx.fail("falsy-observer", "an observer object that is falsy (defines %s): %s; run totals %d, completed %d" % (falsy_by, d or "account well-formed", tot, done),
                          {"falsy_by": falsy_by, "registry": with_registry, "notifications": [repr(e) for e in seq[:30]]})
+    # (i) a value store is an ordinary object too: an in-memory / history store that defines __len__ or __bool__ is falsy while it is
+    # empty - the account (stale section and run section, scopes with the store's class) stays well-formed and closed
+    for falsy_by in ("__bool__", "__len__"):
+        for workers in (1, 4):
+            class FalsyStore(uberjob.ValueStore):
+                def __init__(self):
+                    self.items = []
+
+                def read(self):
+                    return self.items[-1][0]
+
+                def write(self, v):
+                    self.items.append((v, dt.datetime(2021, 1, 1) + dt.timedelta(seconds=len(self.items))))
+
+                def get_modified_time(self):
+                    return self.items[-1][1] if self.items else None
+            if falsy_by == "__bool__":
+                FalsyStore.__bool__ = lambda self: bool(self.items)
+            else:
+                FalsyStore.__len__ = lambda self: len(self.items)
+            plan = uberjob.Plan()
+            reg_ = uberjob.Registry()
+            with plan.scope("stage"):
+                one = plan.call(lambda: 1)
+                two = plan.call(lambda v: v + 1, one)
+                three = plan.call(lambda v: v + 1, two)
+            reg_.add(one, FalsyStore())
+            reg_.add(two, FalsyStore())
+            for rnd in ("first run", "repeated run"):
+                prog = RecProgress()
+                try:
+                    uberjob.run(plan, output=three, registry=reg_, progress=prog, max_workers=workers)
+                    oc = None
+                except BaseException as e:      # noqa
+                    oc = "run raised %s: %r" % (type(e).__name__, getattr(e, "__cause__", None))
+                seq = prog.made[0].seq if prog.made else []
+                d = oc or py_wf(seq)
+                ctx.case(("c15-falsy-store", falsy_by, workers, rnd))
+                tots, dones = collections.Counter(), collections.Counter()
+                for e in seq:
+                    if e[0] == "total":
+                        tots[(e[1], e[2][0])] += e[2][1]
+                    elif e[0] == "completed":
+                        dones[(e[1], e[2])] += 1
+                if d or tots != dones:
+                    ctx.fail("falsy-store", "value stores that are falsy while empty (define %s), %s, max_workers=%d: %s; totals %r, completed %r"
+                             % (falsy_by, rnd, workers, d or "completed differs from the announced totals after a successful run", dict(tots), dict(dones)),
+                             {"falsy_by": falsy_by, "max_workers": workers, "round": rnd, "notifications": [repr(e) for e in seq[:40]]})
+    # (j) a plan with Registry.source placeholders run WITHOUT its registry (the forgotten registry=...): the placeholder call fails with
+    # NotTransformedError like any failing call - reported failed, nothing left running when run raises
+    for workers in (1, 4):
+        for form in ("single", "composite"):
+            plan = uberjob.Plan()
+            reg_ = uberjob.Registry()
+            with plan.scope("inputs"):
+                src_ = reg_.source(plan, uberjob.stores.LiteralSource(5, dt.datetime(2020, 1, 1)))
+            y_ = plan.call(lambda v: v + 1, src_)
+            z_ = plan.call(lambda: 7)
+            prog, other = RecProgress(), RecProgress()
+            try:
+                uberjob.run(plan, output=[y_, z_], progress=prog if form == "single" else composite_progress(prog, other), max_workers=workers, max_errors=None)
+                oc = "returned"
+            except uberjob.CallError as e:
+                oc = "callerror"
+            except BaseException as e:      # noqa
+                oc = "raised %s" % type(e).__name__
+            ctx.case(("c15-forgotten-registry", workers, form))
+            for o in prog.made + (other.made if form == "composite" else []):
+                d = py_wf(o.seq)
+                if d or oc != "callerror" or not any(e[0] == "failed" for e in o.seq):
+                    ctx.fail("forgotten-registry", "a plan with a Registry.source placeholder run without its registry (max_workers=%d, %s observer): run %s; %s"
+                             % (workers, form, oc, d or "no failed notification for the placeholder call"), {"max_workers": workers, "form": form, "notifications": [repr(e) for e in o.seq[:30]]})
+                    break
     # (h) a member whose class derives from the library's NullProgressObserver (a natural base for a failures-only logger)
     from uberjob.progress._null_progress_observer import NullProgressObserver
 
